@@ -514,7 +514,16 @@ func ruleSLICECAP(w *World, r *Report) {
 	r.rule("SLICECAP", ruleSLICECAPText)
 	rangeWorld = w
 	n := 0
+	// only code that Verify/Repair can reach: there the table sizes come from an archive
+	readerFns := w.moduleClosure(w.CG, w.fns(append(append([]string{}, verifyRootNames...), repairRootNames...)...), nil)
 	for _, fn := range w.funcsInPkgs("par1", "par2") {
+		top := fn
+		for top.Parent() != nil {
+			top = top.Parent()
+		}
+		if !readerFns[fn] && !readerFns[top] {
+			continue
+		}
 		k := 0
 		for _, b := range fn.Blocks {
 			for _, in := range b.Instrs {
@@ -1116,4 +1125,217 @@ func ruleGENORDER(w *World, r *Report) {
 		r.ok("GENORDER", "rsec16.generators", "", fmt.Sprintf("%d uses: append, index, len only", n))
 	}
 	r.floor("GENORDER", "uses of the generators table", n, 2)
+}
+
+// ---------------------------------------------------------------------------
+// GOPT: a goroutine count that reaches the coder is at least 1
+
+const ruleGOPTText = "the goroutine option is normalised: in par2.create / verify / repair the count handed to newEncoder / newDecoder is, on every path that does not take the package default, bounded below by 1 (the option is replaced by the default when it is <= 0, not only when it is 0) - a negative count makes the coder's constructor panic"
+
+func ruleGOPT(w *World, r *Report) {
+	r.rule("GOPT", ruleGOPTText)
+	rangeWorld = w
+	n := 0
+	for _, name := range []string{"par2.create", "par2.verify", "par2.repair"} {
+		fn := w.Fn(name)
+		if fn == nil {
+			r.unk("GOPT", name, "", "function not found")
+			continue
+		}
+		for _, f := range region(fn) {
+			for _, c := range callInstrs(f) {
+				cn := staticCalleeShort(c.Common())
+				if cn != "par2.newEncoder" && cn != "par2.newDecoder" {
+					continue
+				}
+				args := c.Common().Args
+				count := args[len(args)-1]
+				n++
+				key := fmt.Sprintf("%s:%s:goroutines", name, cn)
+				why := ""
+				var check func(v ssa.Value, at *ssa.BasicBlock, depth int)
+				check = func(v ssa.Value, at *ssa.BasicBlock, depth int) {
+					if why != "" || depth > 4 {
+						return
+					}
+					v = stripAllConv(v)
+					switch x := v.(type) {
+					case *ssa.Phi:
+						for i, e := range x.Edges {
+							if i < len(x.Block().Preds) {
+								pred := x.Block().Preds[i]
+								// facts of the edge itself
+								rc := &rangeCtx{memo: map[ssa.Value]*ival{}, busy: map[ssa.Value]bool{}}
+								_ = rc
+								check2 := func() {
+									ev := stripAllConv(e)
+									if _, isCall := ev.(*ssa.Call); isCall {
+										check(ev, pred, depth+1)
+										return
+									}
+									if _, isPhi := ev.(*ssa.Phi); isPhi {
+										check(ev, pred, depth+1)
+										return
+									}
+									iv := rc.eval(ev, pred)
+									if len(pred.Instrs) > 0 {
+										if iff, ok := pred.Instrs[len(pred.Instrs)-1].(*ssa.If); ok && pred.Succs[0] != pred.Succs[1] {
+											iv = refineByFacts(ev, iv, factCmps(Fact{iff.Cond, pred.Succs[0] == x.Block(), iff}))
+										}
+									}
+									if iv == nil || !iv.lo.IsInt64() || iv.lo.Int64() < 1 {
+										why = fmt.Sprintf("on the path through %s the count %s is not known to be >= 1", w.ipos(pred.Instrs[len(pred.Instrs)-1]), ev)
+									}
+								}
+								check2()
+							}
+						}
+					case *ssa.Call:
+						g := x.Call.StaticCallee()
+						if g == nil {
+							why = "the count comes from an unknown call"
+							return
+						}
+						switch shortName(g) {
+						case "par2.NumGoroutinesDefault", "rsec16.DefaultNumGoroutines":
+							return // the package default
+						}
+						if len(g.Blocks) == 0 || !w.inModule(g) {
+							why = "the count comes from " + shortName(g)
+							return
+						}
+						for _, gb := range g.Blocks {
+							if ret, ok := gb.Instrs[len(gb.Instrs)-1].(*ssa.Return); ok && len(ret.Results) == 1 {
+								rv := stripAllConv(ret.Results[0])
+								switch rv.(type) {
+								case *ssa.Call, *ssa.Phi:
+									check(rv, gb, depth+1)
+								default:
+									rc := &rangeCtx{memo: map[ssa.Value]*ival{}, busy: map[ssa.Value]bool{}}
+									iv := rc.eval(rv, gb)
+									if iv == nil || !iv.lo.IsInt64() || iv.lo.Int64() < 1 {
+										why = fmt.Sprintf("%s can return %s, which is not known to be >= 1 there (%s)", shortName(g), rv, w.ipos(ret))
+									}
+								}
+							}
+						}
+					default:
+						rc := &rangeCtx{memo: map[ssa.Value]*ival{}, busy: map[ssa.Value]bool{}}
+						iv := rc.eval(v, at)
+						if iv == nil || !iv.lo.IsInt64() || iv.lo.Int64() < 1 {
+							why = fmt.Sprintf("the count %s is not known to be >= 1", v)
+						}
+					}
+				}
+				check(count, c.Block(), 0)
+				if why == "" {
+					r.ok("GOPT", key, w.ipos(c), "the count is the package default or a value known to be >= 1")
+				} else {
+					r.bad("GOPT", key, w.ipos(c), why+": a zero or negative NumGoroutines option reaches the coder and panics there")
+				}
+			}
+		}
+	}
+	r.floor("GOPT", "constructor calls in create/verify/repair", n, 3)
+}
+
+// ---------------------------------------------------------------------------
+// SHARDTAB: the per-file slice table has one record per checksum pair
+
+const ruleSHARDTABText = "one slice record per checksum pair: in (*par2.Decoder).LoadFileData the shardInfos table of a file is made with len(info.checksumPairs) elements - the expected locations that index it are derived from the positions of the checksum pairs, so a length computed from the declared file size can be too short for a well-checksummed but inconsistent index"
+
+func ruleSHARDTAB(w *World, r *Report) {
+	r.rule("SHARDTAB", ruleSHARDTABText)
+	fn := w.Fn("(*par2.Decoder).LoadFileData")
+	if fn == nil {
+		r.unk("SHARDTAB", "(*par2.Decoder).LoadFileData", "", "function not found")
+		return
+	}
+	n := 0
+	for _, f := range region(fn) {
+		for _, b := range f.Blocks {
+			for _, in := range b.Instrs {
+				st, ok := in.(*ssa.Store)
+				if !ok {
+					continue
+				}
+				fa, ok := st.Addr.(*ssa.FieldAddr)
+				if !ok || fieldName(fa.X.Type(), fa.Field) != "shardInfos" {
+					continue
+				}
+				mk, ok := stripConv(st.Val).(*ssa.MakeSlice)
+				if !ok {
+					continue
+				}
+				n++
+				key := fmt.Sprintf("%s:shardInfos-make#%d", shortName(f), n-1)
+				lc := isBuiltinCall(stripAllConv(mk.Len), "len")
+				if lc != nil && strings.HasSuffix(deepPath(w.up(lc.Call.Args[0])).Path, ".checksumPairs") {
+					r.ok("SHARDTAB", key, w.ipos(mk), "made with len(info.checksumPairs)")
+				} else {
+					r.bad("SHARDTAB", key, w.ipos(mk), "the slice table is not made with len(info.checksumPairs) elements ("+mk.Len.String()+"): the locations computed from the checksum pairs can index past it")
+				}
+			}
+		}
+	}
+	r.floor("SHARDTAB", "shardInfos tables made", n, 1)
+}
+
+// ---------------------------------------------------------------------------
+// SIZESENT: the parity shard size is fixed by the first volume that loads
+
+const ruleSIZESENTText = "the shard size comes from the first volume found: in (*par1.Decoder).LoadParityData the assignment of a volume's byte count to shardByteCount is guarded by shardByteCount == 0 (nothing loaded yet), not by the volume's position - .p01 may be the one that is missing"
+
+func ruleSIZESENT(w *World, r *Report) {
+	r.rule("SIZESENT", ruleSIZESENTText)
+	fn := w.Fn("(*par1.Decoder).LoadParityData")
+	if fn == nil {
+		r.unk("SIZESENT", "(*par1.Decoder).LoadParityData", "", "function not found")
+		return
+	}
+	n := 0
+	for _, f := range region(fn) {
+		for _, b := range f.Blocks {
+			for _, in := range b.Instrs {
+				st, ok := in.(*ssa.Store)
+				if !ok {
+					continue
+				}
+				var cellName string
+				switch a := st.Addr.(type) {
+				case *ssa.FreeVar:
+					cellName = a.Name()
+				case *ssa.Alloc:
+					cellName = a.Comment
+				}
+				if cellName != "shardByteCount" {
+					continue
+				}
+				if _, isC := constInt(st.Val); isC {
+					continue // the initial 0
+				}
+				n++
+				key := fmt.Sprintf("%s:shardByteCount-set#%d", shortName(f), n-1)
+				good := false
+				for _, c := range cmpsAt(b) {
+					if c.Op != token.EQL || c.Y == nil {
+						continue
+					}
+					for _, pr := range [][2]ssa.Value{{c.X, c.Y}, {c.Y, c.X}} {
+						z, isC := constInt(pr[1])
+						ld, isLd := stripAllConv(pr[0]).(*ssa.UnOp)
+						if isC && z == 0 && isLd && ld.Op == token.MUL && ld.X == st.Addr {
+							good = true
+						}
+					}
+				}
+				if good {
+					r.ok("SIZESENT", key, w.ipos(st), "set only while it is still 0")
+				} else {
+					r.bad("SIZESENT", key, w.ipos(st), "shardByteCount is set on a condition other than 'still 0': when the first volume found is not the one the condition expects, every volume is rejected as mismatched")
+				}
+			}
+		}
+	}
+	r.floor("SIZESENT", "assignments of the shard size", n, 1)
 }
